@@ -416,6 +416,16 @@ func lemmaTickMonotone(intervalStart uint64, intervalsPerDay uint32, t1, t2 uint
 //@ assumepre os.Remove.underRoot "the WAL file lives in the root directory (C16 concerns bucket paths)"
 //@ exit #removedOnlyIfReplayed: err == nil ==> !needsReplay
 
+// C03: a write set whose data file cannot be opened (bucket removed before the crash, file creation not yet durable)
+// must surface as the error kind the start-up cleaner tolerates (wal.ReplayError: the WAL is moved aside and start-up
+// continues); any other kind makes internal/di panic at start-up.
+//@ func (*WALFileType).replayTGData
+//@ props C03
+//@ option noimplicit
+//@ loop 0 invariant #idx: 0 <= iter0 && iter0 <= rangelen
+//@ exit #openFailureTolerated: err2 != nil ==> typeis(err, "@/executor/wal.ReplayError")
+
+
 //@ func (*WALCleaner).CleanupOldWALFiles
 //@ props C34 C03
 //@ option noimplicit
